@@ -414,7 +414,9 @@ def run(ctx):
 
     ncase = 260 if quick else 1400
     cases, meta = [], []
-    corpus = load_corpus(ctx)
+    corpus_all = load_corpus(ctx)
+    corpus = [c for c in corpus_all if c[0] == 0]            # point-set cases; gridded regression cases (kind 1) join the grid families below
+    corpus_grid = [c for c in corpus_all if c[0] == 1]
     for c in corpus: cases.append(c); meta.append({'fam': 'corpus'})
     for i in range(ncase):
         c, fam = gen_case(rng, quick, psmin_of)
@@ -564,14 +566,17 @@ def run(ctx):
                         ext_violation('calculateOnGridSolution:' + CALC[k1[1]], 'grid algorithm differs from its model (no point-set twin for this direction): ' + d, k1)
 
     # covariogram and generalised variograms on a grid
-    special = []
+    special = [(('covg' if c[1] == 2 else 'general%d' % c[9]) if (c[1] == 2 or c[9] > 0) else 'grid', c) for c in corpus_grid]
     for i in range(2 if quick else 10):
         k1, _, _, _ = gen_grid(rng, quick); k1[1] = 2; special.append(('covg', k1))
     for i in range(3 if quick else 15):
         k1, _, _, _ = gen_grid(rng, quick); k1[1] = 0; k1[5] = 1
         for cl in k1[6]: cl[1] = cl[1][:1]
         k1[9] = rng.choice([1, 2, 3]); k1[8][0][0] = rng.randint(2, 4)
-        if i % 3 == 2: k1[8] = k1[8] + [[k1[8][0][0], list(reversed(k1[8][0][1]))]]
+        if i % 3 == 2:      # two directions along the axes, order 1: both have data (regression case of the stale direction index)
+            nd = len(k1[2]); k1[9] = 1
+            e0 = [1] + [0] * (nd - 1); e1 = ([0, 1] + [0] * (nd - 2)) if nd > 1 else [-1]
+            k1[8] = [[k1[8][0][0], e0], [k1[8][0][0], e1]]
         k1[8] = [gd for gd in k1[8] if any(gd[1])]
         special.append(('general%d' % k1[9], k1))
     si, sm = eng.run('gridspecial', [c for _, c in special])
@@ -590,7 +595,7 @@ def run(ctx):
         for idir in range(len(k1[8])):
             d = cmp_blocks(blocks_of(r[idir]), mblocks_of(sm[k][idir]))
             if d is not None:
-                key = ('calculateOnGridSolution:covg' if nm == 'covg' else
+                key = ('calculateOnGridSolution:' + nm if nm in ('covg', 'grid') else
                        ('calculateGenOnGridSolution:IDIRLOC-not-set' if len(k1[8]) > 1 else 'calculateGenOnGridSolution:' + nm))
                 ext_violation(key, 'grid %s differs from its model: %s' % (nm, d), k1)
 
@@ -620,10 +625,20 @@ def run(ctx):
         ss = [[[dy(v) for v in pts[k]], 1 if (not hasSel or rng.random() < .75) else 0, [], [], [([] if rng.random() < .1 else dy(F(rng.randint(-9, 9))))]] for k in range(n)]
         d = gen_dir(rng, ndim, psmin_of, quick)
         vm.append([5, ndim, int(hasSel), ss, d, rng.randint(2, 6), rng.randint(2, 5), dy(rng.choice([F(1), F(2), F(1, 2)])), dy(rng.choice([F(4), F(16), F(1)]))])
+    for i in range(8 if quick else 80):      # generalised variograms along lines: a DbGrid carrying a code, an ordinary direction
+        ndim = rng.choice([1, 1, 2])
+        nx = [rng.randint(4, 14)] if ndim == 1 else [rng.randint(3, 6), rng.randint(2, 4)]
+        dx = [rng.choice([F(1), F(1, 2), F(2)]) for _ in range(ndim)]
+        hasSel = rng.random() < .3
+        n = 1
+        for v in nx: n *= v
+        cells = [[1 if (not hasSel or rng.random() < .85) else 0, [([] if rng.random() < .08 else dy(F(rng.randint(-9, 9))))]] for _ in range(n)]
+        d = gen_dir(rng, ndim, psmin_of, quick); d[0] = rng.randint(2, 5)
+        vm.append([6, rng.choice([1, 2, 3]), nx, [dy(v) for v in dx], [dy(F(0))] * ndim, cells, int(hasSel), d])
     vi, vmo = eng.run('vmap', vm)
     for k, c in enumerate(vm):
         r = vi[k] if k < len(vi) else None
-        what = {3: 'db_vmap:grid', 4: 'db_vmap:points', 5: 'db_vcloud'}[c[0]]
+        what = {3: 'db_vmap:grid', 4: 'db_vmap:points', 5: 'db_vcloud', 6: 'calculateOnLineSolution'}[c[0]]
         ctx.count(what + sx_str(c)[:2000]); ctx.dist('family_' + what.replace(':', '_'))
         if r is None or (r and isinstance(r[0], int)):
             ext_violation('crash:' + what, '%s crashed / failed (%r)' % (what, r), c); continue
@@ -634,8 +649,17 @@ def run(ctx):
             if im != vmo[k][1]:
                 ext_violation(what, 'counts per cell differ from the pair-by-pair definition: impl %r, expected %r' % (im, vmo[k][1]), c)
             continue
+        if c[0] == 6:
+            if vmo[k][0]: ctx.cov['tie_excluded'] += 1; continue
+            d = cmp_blocks(blocks_of(r), mblocks_of(vmo[k][1]))
+            if d is not None: ext_violation('calculateOnLineSolution:general%d' % c[1], 'generalised variogram along lines differs from its model: ' + d, c)
+            continue
+        mres = vmo[k]
+        if c[0] == 4:
+            if mres[0]: ctx.cov['tie_excluded'] += 1; continue
+            mres = mres[1]
         d = None
-        for b, (ib, mb) in enumerate(zip(r, vmo[k])):
+        for b, (ib, mb) in enumerate(zip(r, mres)):
             nb = [fl(undy(v)) for v in ib[0]]; var = [fl(undy(v)) for v in ib[1]]
             for q, mc in enumerate(mb):
                 msw, _, mgg = cell_of_model(mc)
@@ -665,12 +689,13 @@ def run(ctx):
     ctx.assumptions = [
         'coordinates are dyadic with few bits so that increments, squares and dot products are exact in binary64; decisions then coincide with the exact ones except within the tie margin',
         'psmin = |cos(tolang)| is read back from the library (GH::getCosineAngularTolerance) and given to the model as an exact dyadic; 0 <= psmin <= 1, dpas > 0, tol >= 0, codir <> 0',
-        'regular lags only (no breaks); no faults, no code option, no drift (KU), no variance-of-measurement-error correction; rodogram, generalised variograms, trans1/2, binormal not modelled',
+        'no faults, no code option, no drift (KU), no variance-of-measurement-error correction; trans1/2 and binormal not modelled; generalised variograms modelled on grids only (not along lines); irregular lags: general algorithm, solution 1',
         'conventions taken from the code and not judged: TEST weight counts as 1, negative weight as 0; symmetric estimators need both variables at both ends',
         'cross-covariance spec: C_ij(+h) averages z_i(x) z_j(x+h) over the pairs where these two values exist; a pair with zero projection on the direction contributes half to each side',
         'by-sample estimator (flag_sample, covariogram): spec = per-first-sample ratios averaged with the sample weight, first samples taken in the order of the first coordinate',
         'hh (mean separation) and the madogram are checked against 2^-40 enclosures of the square roots',
-        'grid algorithm is compared with the general algorithm on the implementation only (no Coq model of _calculateOnGridSolution)']
+        'grid algorithm: model of _calculateOnGridSolution compared with impl, with the pairwise definition of the point-set twin and (impl) with the general algorithm; C12_grid_eq_general is proved for the variogram and a rational increment length',
+        'db_vmap (no FFT, radius 0, symmetric estimators) and db_vcloud are compared with their pair-by-pair models; map cells are decided exactly (mesh = power of two)']
 
 def load_corpus(ctx):
     p = os.path.join(VERIF, 'corpus', ctx.pid + '.sx')
